@@ -14,6 +14,7 @@ import polars as pl
 import sqlalchemy as sqa
 
 from pydiverse.common import (
+    Bool,
     Dtype,
     Float,
     Float64,
@@ -171,6 +172,13 @@ class SqlImpl(TableImpl):
                     sel.compile(engine, compile_kwargs={"literal_binds": True}),
                     connection=conn,
                     schema_overrides={
+                        # databases without a boolean type (SQLite) deliver 0 / 1 for
+                        # boolean expressions; the static type decides
+                        sql_col.name: Bool().to_polars()
+                        for sql_col, col in zip(sel.selected_columns.values(), final_select, strict=True)
+                        if types.without_const(col.dtype()) == Bool()
+                    }
+                    | {
                         sql_col.name: schema_overrides[col._uuid]
                         for sql_col, col in zip(sel.selected_columns.values(), final_select, strict=True)
                         if col._uuid in schema_overrides
